@@ -170,6 +170,14 @@ pub fn dispatch(op: &str, a: &[&str]) -> Option<Ans> {
                     break;
                 }
             }
+            // the operands in memory that ENDS at an unreadable page (as sodium_malloc places them): nothing behind the key / context is read
+            {
+                let (gk, gc) = (Guarded::new(&key), Guarded::new(&ctx));
+                let (kr, cr): (&[u8; 32], &[u8; 8]) = (gk.as_slice().try_into().unwrap(), gc.as_slice().try_into().unwrap());
+                let mut s3 = vec![0u8; len];
+                let r3 = crypto_kdf_derive_from_key(&mut s3, id, cr, kr);
+                if r3.is_ok() != r.is_ok() || (r.is_ok() && s3 != sub) { ia = "mismatch derivation from operands in front of a guard page".into(); }
+            }
             if len == 32 {
                 let k = dryoc::kdf::StackKdf::from_parts(key.into(), ctx.into());
                 match k.derive_subkey_to_vec(id) {
